@@ -21,7 +21,8 @@ class C03(object):
                    'conditioning); any other exception on exactly one side is a violation',
                    'cyclic class: agreement bound 1e-8*max(1,|v|) with both runs at tolerance 1e-13']
     required_counters = ('pairs.compared', 'values.compared', 'alias.pairs', 'ic_on_alias.pairs', 'model_text.pairs', 'after_earlier_parse.pairs', 'hygiene_names.pairs', 'traced_step.pairs', 'steady_search_accepted.pairs',
-                         'user_functions_in_derived_variables.pairs', 'aliases_of_sources_that_are_zero_at_k0.pairs', 'after_variant_with_same_names.pairs')
+                         'user_functions_in_derived_variables.pairs', 'aliases_of_sources_that_are_zero_at_k0.pairs', 'after_variant_with_same_names.pairs',
+                         'number_shapes.pairs')
 
     def n_cases(self, tier):
         return 300 if tier == 'quick' else 30000
@@ -57,7 +58,18 @@ class C03(object):
             # alias of the (default or user) time axis
             nm = G.fresh_names(rng, 1, avoid=G.all_value_names(spec) + [d['name'] for d in spec['decos']])[0]
             spec['aliases'].append({'name': nm, 'target': 't'})
+        if idx % 10 == 0:
+            # number shapes: an exogenous path written with integer entries behind an alias (and a lag of the alias)
+            ints = [20, 20, 25] + [25 + j for j in range(spec['maxtime'] + 1)]
+            spec['exos'].append({'name': 'ns_g', 'form': 'list', 'values': ints, 'text': repr(ints)})
+            spec['aliases'].append({'name': 'ns_G', 'target': 'ns_g'})
         case = {'kind': 'pair', 'spec': spec, 'text': G.render(spec), 'cyclic': cyclic, 'first': None}
+        if idx % 10 == 0:
+            # ... integer constants nothing refers to, negative constants raised to a power, numbers written .5, 5., 1E-3, +3
+            case['text'] = ('ns_prev = ns_G(k-1)\nns_use = 0.5*ns_prev + ns_G\nns_five = 5\nns_n = -3\nns_neg = -1.5\n'
+                            'ns_sq = ns_neg**2\nns_cube = ns_n**3 + ns_sq\nns_a = .5\nns_b = 5.\nns_c = 1E-3\nns_d = +3\n'
+                            'ns_mix = ns_a*ns_b + ns_c**2 - ns_d**2 + ns_n**2\n') + case['text']
+            case['number_shapes'] = True
         if rng.random() < 0.2:
             # an alias whose NAME looks like a number suffix, used next to literals spelled with a bare dot
             # ('2.e5*e5'): substitution must respect token boundaries, not word boundaries
@@ -210,6 +222,8 @@ class C03(object):
             rec.count('after_earlier_parse.pairs')
         if case.get('hygiene'):
             rec.count('hygiene_names.pairs')
+        if case.get('number_shapes'):
+            rec.count('number_shapes.pairs')
         shape = ('cyclic' if case['cyclic'] else 'acyclic') + ('|alias' if spec['aliases'] else '') + \
                 ('|deco' if spec['decos'] else '') + ('|ic' if spec['ics'] else '')
         if case.get('steady'):
